@@ -298,6 +298,7 @@ pub fn run(req: &RunRequest) -> Value {
             id_version: 0,
         });
         cluster.features.metadata_id_ext = plan.md_ext;
+        cluster.features.hidden_cols_same_id = tape::chance("c14:hidden_cols_same_id", 1, 2);
         // 1 in 3 multi-node runs with the extension: one node does not offer it (rolling
         // upgrade) - what the client may ask of a node depends on the connection.
         if plan.md_ext && plan.nodes >= 2 && tape::chance("c14:mixed_md_ext", 1, 3) {
@@ -875,6 +876,44 @@ async fn main(plan: Plan) -> Outcome {
             }
         }
     }
+    // (d3) the same for the conditional insert, which is prepared without result columns: once
+    // an execution on an extension connection was answered with the "[applied]" row, its
+    // metadata and the metadata id, the caller's next execution that starts on an extension
+    // connection presents that id (single-caller runs).
+    if plan.md_ext && caching.is_none() && plan.callers == 1 {
+        let real_id = {
+            let w = world::world();
+            w.cluster.find_stmt(LWT).map(|i| w.cluster.result_metadata_id(&w.cluster.catalog[i]))
+        };
+        if let Some(real_id) = real_id {
+            let mut learnt = false;
+            for o in obs.iter().filter(|o| o.kind == 5) {
+                let frames: Vec<&ExecRec> = execs.iter().filter(|e| e.marker == Some(o.marker) && !e.is_batch).collect();
+                if let Some(first) = frames.first() {
+                    if learnt && world::world().conns[first.conn].cql.metadata_id_ext && first.presented_md_id.as_ref() != Some(&real_id) {
+                        out.violation(
+                            "c14.announced_id_not_presented",
+                            format!(
+                                "an earlier execution of the conditional insert was answered with its row, the row's metadata and the result metadata id, but the execution marker {} presents {:02x?}",
+                                o.marker,
+                                first.presented_md_id.as_ref().map(|i| i.iter().take(2).copied().collect::<Vec<u8>>())
+                            ),
+                        );
+                    }
+                }
+                for e in &frames {
+                    match e.answer {
+                        Answer::Unprepared => learnt = false,
+                        Answer::Rows { with_metadata: true, .. } | Answer::Void | Answer::Other if world::world().conns[e.conn].cql.metadata_id_ext && e.presented_md_id.as_ref() != Some(&real_id) => {
+                            // (the mock attaches the id whenever the presented one differs)
+                            learnt = matches!(e.answer, Answer::Rows { with_metadata: true, .. });
+                        }
+                        _ => {}
+                    }
+                }
+            }
+        }
+    }
     // (Not in a cluster where some node lacks the extension: executions that happen to run
     // there teach the statement nothing, so "after quiescence" does not imply "caught up".)
     let mixed_cluster = !world::world().cluster.features.metadata_id_ext_except.is_empty();
@@ -960,12 +999,20 @@ async fn main(plan: Plan) -> Outcome {
         // id the client presented is the id of the version it encoded the rows with: the
         // client asked with that version's metadata in hand and must decode with it,
         // whatever it has learnt in the meantime from other answers.
-        let presented_this_version = conn_ext
-            && last
-                .presented_md_id
-                .as_ref()
-                .map(|md| announced.iter().any(|a| a.1 == version && &a.2 == md))
-                .unwrap_or(false);
+        // (A paged execution consumed several answers, possibly over several connections:
+        // the argument must hold for every one of them.)
+        let presented_this_version = execs
+            .iter()
+            .filter(|e| e.marker == Some(o.marker) && matches!(e.answer, Answer::Rows { .. }))
+            .all(|e| {
+                world::world().conns[e.conn].cql.metadata_id_ext
+                    && e.presented_md_id.as_ref().map(|md| announced.iter().any(|a| a.1 == version && &a.2 == md)).unwrap_or(false)
+            });
+        let conn_ext = conn_ext
+            && execs
+                .iter()
+                .filter(|e| e.marker == Some(o.marker) && matches!(e.answer, Answer::Rows { .. }))
+                .all(|e| world::world().conns[e.conn].cql.metadata_id_ext);
         let admissible = if with_metadata || presented_this_version {
             true
         } else if !conn_ext && !plan.use_cached {
